@@ -49,6 +49,8 @@ def body_of(desc, rng):
         return bytes(range(256)) * 3 + b'\r\n\x00'
     if b == 'zeros':
         return b'\x00' * 5000
+    if b == 'zeros1m':
+        return b'\x00' * 1000000        # compresses better than 1000:1 under every algorithm (20000:1 under BZ2)
     if b == '64k':
         return bytes(rng.getrandbits(8) for _ in range(65536))
     if b == '4m':
